@@ -65,11 +65,6 @@ Proof. intros H. unfold chk_confusion_matrix_param_check, contractb_confusion_ma
 Lemma check_iff_contract_confusion_matrix_param_check : forall e, wf sig_confusion_matrix_param_check e -> (accepts chk_confusion_matrix_param_check e = true <-> contract_confusion_matrix_param_check e).
 Proof. intros e H. exact (iff_of_beq _ _ (beq_confusion_matrix_param_check e H)). Qed.
 
-Lemma beq_confusion_matrix_update_input_check e : wf sig_confusion_matrix_update_input_check e -> accepts chk_confusion_matrix_update_input_check e = contractb_confusion_matrix_update_input_check e.
-Proof. intros H. unfold chk_confusion_matrix_update_input_check, contractb_confusion_matrix_update_input_check. shape_solve H. Qed.
-Lemma check_iff_contract_confusion_matrix_update_input_check : forall e, wf sig_confusion_matrix_update_input_check e -> (accepts chk_confusion_matrix_update_input_check e = true <-> contract_confusion_matrix_update_input_check e).
-Proof. intros e H. exact (iff_of_beq _ _ (beq_confusion_matrix_update_input_check e H)). Qed.
-
 Lemma beq_f1_score_param_check e : wf sig_f1_score_param_check e -> accepts chk_f1_score_param_check e = contractb_f1_score_param_check e.
 Proof. intros H. unfold chk_f1_score_param_check, contractb_f1_score_param_check. shape_solve H. Qed.
 Lemma check_iff_contract_f1_score_param_check : forall e, wf sig_f1_score_param_check e -> (accepts chk_f1_score_param_check e = true <-> contract_f1_score_param_check e).
